@@ -1,9 +1,119 @@
 import DspVerif.Driver.Proto
-/-! driver handlers for C09 (stub: no correspondence cases handled yet) -/
+import DspVerif.Model.Conc
+import DspVerif.Model.Lru
+/-! driver handlers for C09:
+* `footprint <kind>`  — the lists of the model's footprint table (Model/Conc.lean), sorted
+* `rng <threads> <n> <t:kS | t:uN | t:vN>…` — an interleaving of rng(S) / N draws of rand() over per-thread mt19937 engines
+* `keys <cap> <n> <op>…` — final plan-cache keys of ONE thread, computed from its own calls only (Model/Lru.lean)
+* `scenario <threads> (<n> <op>…)…` — is the sharing pattern of the scenario admitted by the table (`exclusive`)? -/
 namespace Dsp.Driver
-open Dsp.Proto
+open Dsp.Proto Dsp.Conc
+
+def insertStr (a : String) : List String → List String
+  | [] => [a]
+  | b :: l => if a < b || a == b then a :: b :: l else b :: insertStr a l
+
+def sortStr (l : List String) : List String := l.foldr insertStr []
+
+def fmtStrList (l : List String) : String :=
+  let l := sortStr l
+  if l.isEmpty then "0" else toString l.length ++ " " ++ String.intercalate " " l
+
+/-- `t:kS`, `t:uN`, `t:vN` -/
+def parseRngEv (s : String) : Option (List (Nat × RngOp)) :=
+  match s.splitOn ":" with
+  | [t, r] => do
+    let t ← t.toNat?
+    match r.toList with
+    | 'k' :: a => do let k ← (String.ofList a).toInt?; pure [(t, RngOp.seed k)]
+    | 'u' :: a => do let n ← (String.ofList a).toNat?; pure (List.replicate n (t, RngOp.draw))
+    | 'v' :: a => do let n ← (String.ofList a).toNat?; pure (List.replicate n (t, RngOp.draw))
+    | _ => none
+  | _ => none
+
+/-- harness op `<kind><a>[:<b>]` -/
+def parseMixOp (s : String) : Option (Char × Nat × Nat) :=
+  match s.toList with
+  | [] => none
+  | k :: r =>
+    match (String.ofList r).splitOn ":" with
+    | [a] => do pure (k, ← a.toNat?, 0)
+    | [a, b] => do pure (k, ← a.toNat?, ← b.toNat?)
+    | _ => none
+
+def pow2ge (n : Nat) : Nat := Id.run do
+  let mut p := 1
+  for _ in [0:40] do
+    if p < n then p := 2 * p
+  return p
+
+/-- plan-factory requests of one harness operation (the FFT lengths it asks for, in order) -/
+def lruOps (k : Char) (a b : Nat) : List Dsp.Lru.Op :=
+  match k with
+  | 'c' | 'f' | 'P' => [.fftC a]
+  | 'r' => [.fftR a]
+  | 'i' => [.fftR a, .irfft a]
+  | 'z' => [.czt a b]
+  | 'x' => let m := pow2ge (a + b - 1); [.fftC m, .fftC m, .fftC m]                -- fft, fft, ifft of length 2^nextpow2(n1+n2-1)
+  | 'w' => [.fftR (pow2ge b)]                                                    -- every segment: real fft of length 2^nextpow2(winlen)
+  | 'F' => [.fftC (pow2ge (2 * a))]                                              -- FftFilter(h): fft(conj(h), fft_len)
+  | _ => []                                                                      -- s g u j k q S: no factory request; p: see below
+
+def fmtKeys9 (s : Dsp.Lru.FftState Nat) : String :=
+  let kc := s.cC.keys.map (fun (k : Nat) => (k : Int))
+  let kr := s.cR.keys.map (fun (k : Nat) => (k : Int))
+  s!"C {fmtIntList kc} R {fmtIntList kr}"
+
+/-- parses `<n> op…` groups -/
+def takeProgram : List String → Option (List (Char × Nat × Nat) × List String)
+  | [] => none
+  | n :: rest => do
+    let n ← n.toNat?
+    if rest.length < n then none else
+    let ops ← (rest.take n).mapM parseMixOp
+    pure (ops, rest.drop n)
+
+def takePrograms : Nat → List String → Option (List (List (Char × Nat × Nat)))
+  | 0, _ => some []
+  | k + 1, toks => do
+    let (p, rest) ← takeProgram toks
+    let ps ← takePrograms k rest
+    pure (p :: ps)
 
 def h09 : List String → Option String
+  | ["footprint", "mutable"] => some (fmtStrList (varsOf .mutableMember))
+  | ["footprint", "thread_local"] => some (fmtStrList (varsOf .threadLocal))
+  | ["footprint", "shared_mutable"] => some (fmtStrList (varsOf .sharedMutable))
+  | ["footprint", "shared_const"] => some (fmtStrList (varsOf .sharedConst))
+  | ["footprint", "const_cast"] => some (fmtStrList constCasts)
+  | ["footprint", "plan_members"] => some (fmtStrList (planMembers.map (·.1)))
+  | ["footprint", "plan_nonconst_methods"] => some (fmtStrList planNonconstMethods)
+  | "rng" :: _nt :: _n :: evs => do
+    let ops ← evs.mapM parseRngEv
+    let vals := rngRun mtSpec (fun _ => mtSpec.fresh) ops.flatten
+    if vals.isEmpty then some "-" else some (fmtFloats (vals.map (·.2)))
+  | "keys" :: cap :: _n :: ops => do
+    let cap ← cap.toNat?
+    let ops ← ops.mapM parseMixOp
+    -- the FftFilter's block length is state of the program: `p n` runs fft+ifft of the filter's length once per completed block
+    let (s, _) := ops.foldl (fun (acc : Dsp.Lru.FftState Nat × (Nat × Nat × Nat)) (o : Char × Nat × Nat) =>
+      let (s, (flen, blk, fill)) := acc
+      let (k, a, b) := o
+      let s := (lruOps k a b).foldl (Dsp.Lru.step id id) s
+      if k == 'F' then
+        let fl := pow2ge (2 * a)
+        (s, (fl, fl - a + 1, 0))
+      else if k == 'p' && flen > 0 then
+        let blocks := (fill + a) / blk
+        let s := (List.replicate (2 * blocks) (Dsp.Lru.Op.fftC flen)).foldl (Dsp.Lru.step id id) s
+        (s, (flen, blk, (fill + a) % blk))
+      else (s, (flen, blk, fill))) (Dsp.Lru.FftState.init cap, (0, 0, 0))
+    some (fmtKeys9 s)
+  | "scenario" :: nt :: rest => do
+    let nt ← nt.toNat?
+    let ps ← takePrograms nt rest
+    let sc : Scenario := ps.zipIdx.map (fun pt => (pt.1.map (fun o => callsOfOp pt.2 o.1 o.2.1)).flatten)
+    some (if exclusive sc then "1" else "0")
   | _ => none
 
 end Dsp.Driver
